@@ -29,6 +29,7 @@ sys.path.insert(0, C.VERIF)
 from translators import keyparts as KP  # noqa: E402
 
 PID = "C04"
+QUICK_N, THOROUGH_N = 36, 600      # generated histories per tier (corpus always runs first)
 
 MANIFEST = {
     "category": "other",
@@ -180,7 +181,9 @@ def prestate(sb, root, learned, ids):
     paths = []
     for src, dst, mp in source_paths(root, meta):
         s = sha(src)
+        e = (man or {"files": {}})["files"].get(src)
         paths.append({"src": src, "rel": os.path.relpath(src, root), "sha": s, "dst": dst, "map": mp,
+                      "blob_ok": bool(e and e.get("fragment") and blob_ok(root, e["fragment"])),
                       "gen": info.get(dst), "dst_exists": os.path.exists(dst), "map_exists": os.path.exists(mp),
                       "mtime": os.stat(src).st_mtime_ns})
     return {"meta": meta, "manifest": man, "info": info, "key": key, "mn": mn, "paths": paths,
@@ -199,8 +202,7 @@ def coq_case(pre, key_match, learned, ids, co):
                                                      "true" if e.get("fragment") else "false", deps))
     ps = []
     for p in pre["paths"]:
-        e = (man or {"files": {}})["files"].get(p["src"])
-        bok = bool(e and e.get("fragment") and blob_ok(pre["root"], e["fragment"]))
+        bok = p["blob_ok"]
         ps.append("mkPath %d %s false %s %s %s %d %s" % (
             ids("f:" + p["src"]),
             "(Some %d)" % ids("h:" + p["sha"]) if p["sha"] else "None",
@@ -432,6 +434,13 @@ def classify(kind, path, rec, pre, prj, restored_set, gen_files, checked_since, 
                 return "check-refreshes-cache"
         return "stale-output:" + kind
     if kind == "diagnostics":
+        only_i = [d for d in rec["diag_inc"] if d not in rec["diag_cln"]]
+        only_c = [d for d in rec["diag_cln"] if d not in rec["diag_inc"]]
+        errs_i = [d for d in rec["diag_inc"] if d[0] == "Error"]
+        errs_c = [d for d in rec["diag_cln"] if d[0] == "Error"]
+        if rec["rc_inc"] != 0 and rec["rc_cln"] != 0 and errs_i and errs_i == errs_c and not only_c \
+                and all(d[0] == "Warning" for d in only_i) and restored_set:
+            return "failfast-cached-warnings"
         return "diagnostics-differ"
     if kind == "status":
         return "status-differs"
@@ -496,7 +505,7 @@ def assign_key_match(recs):
         km = pre["has_manifest"] and saved_key is not None and saved_key == pre["key"]
         rec["_key_match"] = km
         # observation: a saved manifest shows the key the run used
-        if pre["has_manifest"] and pre["new_global_key"] is not None and pre["old_global_key"] is not None:
+        if rec["man_changed"] and pre["has_manifest"] and pre["new_global_key"] is not None and pre["old_global_key"] is not None:
             real_match = pre["old_global_key"] == pre["new_global_key"]
             if saved_key is not None and real_match != (saved_key == pre["key"]):
                 notes.append((rec["step"], "model key %s but real global_key %s" % (
@@ -598,7 +607,7 @@ def run(tier, seed, replay):
     else:
         cases = corpus_cases()
         rng = random.Random(seed * 1000003 + 4)
-        n = 36 if tier == "quick" else 600
+        n = QUICK_N if tier == "quick" else THOROUGH_N
         for i in range(n):
             prj = G.gen_project(rng)
             steps = G.gen_history(rng, prj, nsteps=rng.randint(3, 8 if tier == "quick" else 10))
